@@ -54,8 +54,11 @@ func (o *c12Obs) violate(w *gWorld, ev *gEvent, class, summary string, extra map
 }
 
 func (o *c12Obs) observe(w *gWorld, ev *gEvent) {
-	if !ev.After.Exists {
-		o.epoch++
+	for _, tr := range ev.afters() { // overlapped requests: the group was absent at SOME instant during the pair
+		if !tr.Exists {
+			o.epoch++
+			break
+		}
 	}
 	switch ev.K {
 	case "join":
@@ -75,6 +78,32 @@ func (o *c12Obs) observe(w *gWorld, ev *gEvent) {
 			return
 		}
 		tr := ev.After
+		if ev.overlapped() && !ev.quiet() {
+			// the other request of the pair changed generation, membership or a subscription while this one
+			// was in flight: which of the states the reply belongs to is not known. The reply is not judged;
+			// what the pair left behind is judged at the following (sequential) syncs. Only the moment of the
+			// generation's first successful sync is remembered (partitions added later are not its business).
+			o.r.Count("sync_success_overlapped_by_membership_change_not_judged", 1)
+			for _, c := range ev.Cands {
+				if c.Exists && c.Gen == ev.ReqGen {
+					k := o.key(ev.ReqGen)
+					if o.gens[k] == nil {
+						o.gens[k] = &c12Gen{synced: map[string]map[string][]int32{}, syncedStr: map[string]string{}, resubscribed: map[string]bool{}}
+					}
+					if g := o.gens[k]; g.subAtAssign == nil {
+						g.subAtAssign = map[string][]string{}
+						g.topicsAtAssign = w.cfg.Topics
+						for id := range c.Members {
+							if info := w.ids[id]; info != nil {
+								g.subAtAssign[id] = info.Sub
+							}
+						}
+					}
+					break
+				}
+			}
+			return
+		}
 		// only judged when the reply is about the group's current generation and a current member
 		// (anything else is C13's business)
 		if !tr.Exists || tr.Gen != ev.ReqGen || !tr.has(ev.ReqID) {
@@ -277,4 +306,41 @@ func TestVerifC12(t *testing.T) {
 	r.Floor("generations_fully_synced_multi_member", 50)
 	r.Floor("group_states", 12)
 	r.Exhaustive(false) // a sample of histories; the bounded-exhaustive part is leg enum
+}
+
+// Overlap leg: two requests in flight. See harness/_shared/group/overlap_test.go.
+func TestVerifC12Overlap(t *testing.T) {
+	r := verifkit.Start(t, "C12", "overlap")
+	gSeedSalt = r.Seed
+	gRealTimerStart()
+	defer r.Finish("real GroupCoordinator over the real InMemoryStore behind the recording store decorator, synctest virtual time, TWO requests in flight: PRNG scenarios for 2-4 clients in which the group is brought into some phase (forming, rebalance completed but leader not synced, stable, disturbed by a leave / new member / changed subscription with all or some members re-joined) and then a pair (A,B) of requests by different clients is overlapped: the decorator parks one store call of A (Metadata lookup of the leader's SyncGroup, PutConsumerGroup / DeleteConsumerGroup of a join, sync, heartbeat or leave, CommitConsumerOffset, FetchConsumerGroup; before or after the real store executed it), B (leave, join of a new member, re-join with the same or another subscription, heartbeat, commit, sync, or a time advance that expires sessions) is sent while A is parked, then A is released; well-behaved settle rounds and ordinary requests follow. If the coordinator holds a lock across A's store call (TryLock probe of its mutex fields) B is simply sent after A. The C12 oracle of leg 'group' judges every successful SyncGroup reply; a reply of an overlapped request is judged only if generation, membership and subscriptions were the same in every boundary snapshot taken during the pair (otherwise the state it belongs to is unknown); all later, sequential replies are judged in full, so an assignment that a pair installed into the wrong generation or computed from a superseded membership is seen at the next sync of the members. non-trivial = case in which a pair was overlapped (A parked) and afterwards a generation of >=2 members was fully synced",
+		"subscription of a member = the one sent with its latest JoinGroup", "topics absent from the store have no partitions in the oracle's universe", "the real-time bound under which B is awaited while A is parked is a scheduling aid: if it expires nothing is judged and the case is cut")
+	p := gDefaultOvlProfile
+	p.Grow = true
+	n := r.N(500, 8000)
+	for ci := 0; ci < n; ci++ {
+		rng := r.Rand(ci)
+		cfg, ops := gGenOverlapCase(rng, p, fmt.Sprintf("o%d", ci))
+		o := &c12Obs{r: r, ci: ci, gens: map[string]*c12Gen{}}
+		w := gRunCase(t, cfg, ops, int64(ci)*100000, func(w *gWorld) {
+			w.obs = append(w.obs, o.observe, func(w *gWorld, ev *gEvent) { r.Seen("group_states", w.stateSig(ev.After)) })
+		})
+		if w.blocked {
+			r.Inconclusive(fmt.Sprintf("case %d: a coordinator call never returned", ci))
+		}
+		parked := w.ovl.LockHeld+w.ovl.Inside > 0
+		r.Case(gOpsSig(w), parked && o.multiMember > 0)
+		r.Count("steps", int64(len(w.log)))
+		r.Count("generations_fully_synced", int64(o.fullGens))
+		r.Count("generations_fully_synced_multi_member", int64(o.multiMember))
+		gOvlAccount(w, r.Count, r.Seen)
+		if ci < 2 {
+			r.Sample(gWitness(w, -1, nil))
+		}
+	}
+	r.Floor("sync_success", 200)
+	r.Floor("generations_fully_synced_multi_member", 50)
+	r.Floor("overlap_a_parked", int64(r.N(200, 3000)))
+	r.Floor("overlap_b_ran_inside_a_store_call", 5) // CommitConsumerOffset is called without the lock even by the unchanged coordinator
+	r.Exhaustive(false)
 }
